@@ -62,6 +62,15 @@ CLAIMS = {
    note=NOTE_COMMON + "Model-taking callees are ghost values (pure functions of the const model: C19); iostream/boost::format text formatting to the printed precision and SLHAea "
         "containers are assumed (SLHAea::Coll by an ordered-list contract); echo of input blocks is SLHAea's write_to_stream (external, not claimed).",
    technique="output-effect traces by symbolic execution of the extracted writers + z3; ghost-valued callee contracts", design='5 C15'),
+ 'C16': dict(
+   text="Exception and diagnostic effects as ghost state, for ALL inputs: MSSM check_input throws EInvalidInput for each documented defect (MW>=MZ, vanishing MW, MZ, m_mu, mu, M1, M2, "
+        "tan beta, vd) when force-output is off and emits exactly the matching WARNING when it is on, nothing otherwise; check_problems maps a flagged tachyon to EPhysicalProblem and "
+        "negative soft masses / massless chargino to EInvalidInput unless force-output; THDM set_basis (mass and gauge basis) likewise for mh>mH, tan beta<=0, |sin(beta-alpha)|>1, "
+        "negative masses and tachyons; int_to_cpp_yukawa_type is the identity on 1..6 and throws ESetupError otherwise; the monitored MSSM sectors flag a tachyon exactly when an "
+        "eigenvalue is negative; MSSMNoFV_setup::run returns failure exactly when a problem is flagged and print_error emits a diagnostic for every output format.",
+   note=NOTE_COMMON + "'infinite tan(beta)' and 'result is finite' are IEEE notions outside back end B (C11/C18 territory); the THDM spectrum calculation and validate() enter set_basis by contract; "
+        "main()'s try/catch is covered through print_error and the setup classes, command-line parsing is not modelled.",
+   technique="exception/diagnostic effects by symbolic path exploration of the extracted real methods + z3", design='5 C16'),
  'C17': dict(
    text="Contracts on all 137 extern \"C\" functions: nothrow by exception-effect inference over the extracted bodies (callee throw contracts inferred bottom-up, try/catch filtering, "
         "logging macros that stream a model included); every calculation wrapper returns exactly its C++ counterpart on the same model with the extra arguments in order; "
